@@ -391,6 +391,10 @@ func c01Directed(e *Env) {
 		if strings.HasPrefix(goOut, "err\tcompile\t") && strings.HasPrefix(model, "err\tcompile\t") {
 			continue // rejected statically by the real compiler, at first use by the reference semantics: same class
 		}
+		if strings.HasPrefix(model, "unsupported") {
+			e.R.H("directed_eval_order", "outside the reference semantics ("+strings.SplitN(model, "\t", 3)[1]+"): VM model and dispatch trace only")
+			continue
+		}
 		if model != goOut {
 			finding := ""
 			if vm == goOut {
@@ -594,6 +598,19 @@ func c01DirectedErrors() []*N {
 		mk(nVar("r", nTry(nThunk(nExpr(nTry(nThunk(nExpr(nInfix("+", nInt(1), nStr("a")))), nFunc("", []string{"e"}, nExpr(nCall(nId("error"), nId("e"))))))), nFunc("", []string{"e"}, nRet(nId("e"))))),
 			nExpr(n("list", nId("r")))),
 		mk(nVar("r", nTry(nThunk(nRaise("a")), nFunc("", []string{"e"}, nRet(nId("e"))))), nExpr(nCall(nId("error"), nId("r"))), nPrint(nStr("unreachable"))),
+		// runaway recursion: with an operand kept per level the 1024-slot operand stack overflows before the
+		// 1024-frame array does; without one the frame array overflows.  Both are Go panics recovered by
+		// vm.Run: try does not catch them, deferred calls on the way out run (the dispatch traces must agree
+		// to the last instruction)
+		mk(nExpr(nFunc("r", []string{"k"}, nRet(nInfix("+", nId("k"), nCall(nId("r"), nInfix("-", nId("k"), nInt(1))))))), nExpr(nCall(nId("r"), nInt(1)))),
+		mk(nExpr(nFunc("r", []string{"k"}, nRet(nCall(nId("r"), nInfix("-", nId("k"), nInt(1)))))), nExpr(nCall(nId("r"), nInt(1)))),
+		mk(nExpr(nFunc("r", []string{"k"}, nRet(nInfix("+", nId("k"), nCall(nId("r"), nInfix("-", nId("k"), nInt(1))))))),
+			nExpr(nFunc("h", nil, nDefer(nCall(nThunk(nPrint(nStr("deferred in h"))))), nVar("t", nTry(nThunk(nExpr(nCall(nId("r"), nInt(1)))), nFunc("", []string{"e"}, nPrint(nStr("handler"))))), nRet(nInt(1)))),
+			nExpr(nCall(nId("h")))),
+		mk(nExpr(nFunc("r", []string{"k"}, nDefer(nCall(nId("len"), nStr("x"))), nRet(nCall(nId("r"), nInfix("-", nId("k"), nInt(1)))))),
+			nExpr(nTry(nThunk(nExpr(nCall(nId("r"), nInt(1)))), nInt(4)))),
+		mk(nExpr(nFunc("r", []string{"k"}, nRet(nInfix("+", nId("k"), nInfix("+", nInt(1), nCall(nId("r"), nInfix("-", nId("k"), nInt(1)))))))),
+			nExpr(nFunc("h", nil, nDefer(nCall(nThunk())), nRet(nInfix("+", nInt(2), nCall(nId("r"), nInt(1)))))), nExpr(nCall(nId("h")))),
 		// try inside a deferred call; a failing builtin and a non-callable as deferred calls
 		mk(nExpr(nFunc("h", nil, nDefer(nTry(nThunk(nRaise("x")), nFunc("", []string{"e"}, nPrint(nStr("h"), nId("e"))))), nRet(nInt(2)))), nExpr(nCall(nId("h")))),
 		mk(nExpr(nFunc("h", nil, nDefer(nCall(nId("len"), nInt(1), nInt(2))), nPrint(nStr("body")), nRet(nInt(2)))), nExpr(nCall(nId("h")))),
